@@ -112,13 +112,13 @@ fn ty_of(a: &ArgSpec) -> Option<Ty> {
             // the enum type is only read by the language probe
             ValParser::EnumVp => return None,
             ValParser::Bool | ValParser::Boolish => Ty::Bool,
-            ValParser::Edge(k) => {
-                if edge_language(*k).0 {
-                    Ty::U64
-                } else {
-                    Ty::I64
-                }
-            }
+            ValParser::Edge(k) => match k % 15 {
+                12 => Ty::U16,
+                13 => Ty::I8,
+                14 => Ty::U8,
+                _ if edge_language(*k).0 => Ty::U64,
+                _ => Ty::I64,
+            },
         }),
     }
 }
@@ -138,7 +138,13 @@ fn canonical(a: &ArgSpec, ty: Ty, raw: &[u8]) -> Option<String> {
             };
             s.filter(|t| dec_in_range(t, lo, hi)).map(own_decimal)
         }
-        Ty::U16 => s.filter(|t| dec_in_range(t, 0, 65535)).map(own_decimal),
+        Ty::U16 => {
+            let (lo, hi) = match &a.parser {
+                ValParser::Edge(k) => (edge_language(*k).1, edge_language(*k).2),
+                _ => (0, 65535),
+            };
+            s.filter(|t| dec_in_range(t, lo, hi)).map(own_decimal)
+        }
         Ty::I8 | Ty::I16 | Ty::I32 | Ty::U32 | Ty::U64 => {
             let (lo, hi) = match &a.parser {
                 ValParser::Int { w, range } => w.language(*range),
@@ -150,6 +156,7 @@ fn canonical(a: &ArgSpec, ty: Ty, raw: &[u8]) -> Option<String> {
         Ty::U8 => {
             let (lo, hi) = match &a.parser {
                 ValParser::Int { w, range } if a.action.takes_values() || a.action == Action::Count => w.language(*range),
+                ValParser::Edge(k) => (edge_language(*k).1, edge_language(*k).2),
                 _ => (0, 255),
             };
             s.filter(|t| dec_in_range(t, lo, hi)).map(own_decimal)
@@ -641,7 +648,8 @@ fn lang_probe(a: &ArgSpec, cand: &B, via: u8) -> Option<String> {
             if matches!(e.kind(), clap::error::ErrorKind::InvalidValue | clap::error::ErrorKind::ValueValidation) {
                 // "... rejected with a value error naming the argument"
                 let text = e.to_string();
-                if text.contains("--probe") {
+                // "invalid value '<the value>' for '--probe <probe>'": the argument in the argument's place
+                if text.contains("for '--probe") {
                     None
                 } else {
                     Some(format!("candidate {} for {:?}: the value error does not name the argument: {text:?}", cand.esc(), a.parser))
